@@ -88,10 +88,22 @@ def gen_cases(rng, tier):
       T = tg.gen_tree(rng, rng.randint(1, max_depth))
     else:
       T = tg.gen_tree(rng, rng.randint(0, 2), p_adaptor=0.8, p_leaf=0.5, lengths=[1, 3, 3, 4, 5])
+    if i % 20 == 19:
+      # a multi-flow adaptor at top level whose flow matrix is SQUARE (as many conduits as slots), per-slot price vector with distinct
+      # entries: a price of length n is one price per SLOT whatever the number of rows
+      nn = lg.pick(rng, [2, 2, 3, 4])
+      for _ in range(40):
+        T = tg.gen_adaptor(rng, nn, set(), conduits=[nn], p_tworatio=(0.3 if nn == 2 else 0.0))
+        if tg.rows(T) == nn:
+          break
+      kind = 'vector'
     R, n = tg.rows(T), tg.length(T)
     S = tg.gen_matrix(rng, T)
     hess = (not slow_hess(T)) or rng.random() < (0.15 if tier != 'thorough' else 0.05)
-    out.append({'tree': T, 'S': S, 'flat': rng.random() < 0.5, 'price': gen_price(rng, R, n, kind, sign), 'hess': hess})
+    price = gen_price(rng, R, n, kind, sign)
+    if i % 20 == 19 and price[0] == 'vector' and len(set(price[1])) < len(price[1]):
+      price = ('vector', [v + F(j, 8) for j, v in enumerate(price[1])])
+    out.append({'tree': T, 'S': S, 'flat': rng.random() < 0.5, 'price': price, 'hess': hess})
   return out
 
 
